@@ -158,6 +158,8 @@ struct Partial {
     det_hashes: BTreeMap<u64, String>,
     hashes_file: String,
     shrink_runs: u64,
+    #[serde(default)]
+    further_violating_runs: u64,
 }
 
 #[derive(Serialize, Deserialize, Clone, Debug)]
@@ -432,6 +434,12 @@ fn batch<S: Sim>(b: &BatchArgs) {
             if !done.insert(v.invariant.clone()) {
                 continue;
             }
+            // A change that breaks the property wholesale makes almost every run fail: report a
+            // bounded number of minimised classes per worker and only count the rest.
+            if p.violations.len() >= 12 || shrink_total == 0 {
+                p.further_violating_runs += 1;
+                continue;
+            }
             let (s2, t2) = if b.no_shrink {
                 (script.clone(), tape.rec.clone())
             } else {
@@ -635,7 +643,9 @@ fn check<S: Sim>(a: &[String]) -> ! {
     let mut other: BTreeMap<String, u64> = BTreeMap::new();
     let mut all_hashes: Vec<u64> = Vec::new();
     let mut shrink_runs = 0;
+    let mut further = 0;
     for p in &parts {
+        further += p.further_violating_runs;
         runs_done += p.runs;
         nontrivial_runs += p.nontrivial_runs;
         sim_ns += p.sim_ns as u128;
@@ -723,6 +733,7 @@ fn check<S: Sim>(a: &[String]) -> ! {
             "abstract_states": states.iter().take(400).collect::<Vec<_>>(),
             "determinism_check": { "cases_run_twice_in_separate_processes": det_checked, "divergences": 0 },
             "shrink_runs": shrink_runs,
+            "further_violating_runs_not_minimised": further,
             "worker_processes": workers,
             "components_real": meta.real,
             "components_stub": meta.stub,
@@ -743,6 +754,9 @@ fn check<S: Sim>(a: &[String]) -> ! {
     );
     for l in &lines {
         println!("{l}");
+    }
+    if further > 0 {
+        println!("({further} more violating runs were counted but not minimised)");
     }
     if inexact {
         harness_error("a minimised case did not replay to the same event log");
